@@ -251,7 +251,7 @@ def work(arg):
     for fn_name, xq in (('loading', 0.37 * p_top), ('pressure', 0.37 * n_top)):
         if not xq > 0:
             continue
-        for how in ('params[key] = v', 'params = {...}'):
+        for how in ('params[key] = v', 'params = {...}', 'params = {... keys sorted}', 'params = {... keys reversed}'):
             for shape_name, xx in (('float', float(xq)), ('1-d', numpy.array([0.5 * xq, xq]))):
                 m1 = ml.mk(name, params, T)
                 first = core.call(getattr(m1, fn_name), xx)
@@ -259,8 +259,12 @@ def work(arg):
                 new[key] = params[key] * 1.25
                 if how == 'params[key] = v':
                     m1.params[key] = new[key]
-                else:
+                elif how == 'params = {...}':
                     m1.params = dict(new)
+                elif how == 'params = {... keys sorted}':
+                    m1.params = {k_: new[k_] for k_ in sorted(new)}          # a mapping: the order of its keys carries no meaning
+                else:
+                    m1.params = {k_: new[k_] for k_ in reversed(list(new))}
                 got = core.call(getattr(m1, fn_name), xx)
                 want = core.call(getattr(ml.mk(name, new, T), fn_name), xx)
                 out['ev'] += 1
@@ -341,6 +345,24 @@ def _work_modeliso(arg):
             out['viol'].append(core.make_violation({'check': 'modelisotherm-vs-bare-model', 'model': name, 'fn': what},
                                                    f'ModelIsotherm[{name}].{what} requested {R_}: {o.value if o.ok else o.brief()} but bare model o conversion gives {exp}',
                                                    {'model': name, 'params': params, 'requested': R_}, exp, o.value if o.ok else o.brief()))
+        # the point generators: the same points, read in the requested representation
+        plain_p, plain_n = core.call(iso.pressure, 7), core.call(iso.loading, 7)
+        kwp = {k: v for k, v in zip(keys[:2], R_[:2]) if v}
+        kwl = {k: v for k, v in zip(keys[2:], R_[2:]) if v}
+        for what, plain, got, conv in (
+                ('pressure(7)', plain_p, core.call(iso.pressure, 7, **kwp), lambda x: ru.c_pressure(numpy.asarray(x, dtype=float), S[0], S[1], R_[0], R_[1], c)),
+                ('loading(7)', plain_n, core.call(iso.loading, 7, **kwl),
+                 lambda x: ru.full_loading(numpy.asarray(x, dtype=float), S[2], S[3], S[4], S[5], R_[2], R_[3], R_[4], R_[5], c, MAT))):
+            out['ev'] += 1
+            if not plain.ok:
+                continue
+            out['nt'] += 1
+            exp2 = conv(plain.value)
+            if not got.ok or numpy.shape(got.value) != numpy.shape(exp2) or core.relerr(got.value, exp2) > 1e-8:
+                out['viol'].append(core.make_violation({'check': 'modelisotherm-point-generator', 'model': name, 'fn': what.split('(')[0]},
+                                                       f'ModelIsotherm[{name}].{what} requested {R_[:2] if what.startswith("p") else R_[2:]}: {got.value if got.ok else got.brief()} '
+                                                       f'but the same points converted from the stored representation are {exp2}',
+                                                       {'model': name, 'params': params, 'requested': R_}, exp2, got.value if got.ok else got.brief()))
     return out
 
 
